@@ -8,8 +8,10 @@ CONSTANTS
   MaxT = 2
   Liqs = {1, 2}
   Owners = {1, 2}
+  Creators = {1, 2}
   MaxPos = 3
   MaxId = 4
+VIEW View
 INVARIANTS InvLiq InvTicks InvPrice InvEmpty InvWF
 PROPERTIES ImmutableStep
 CHECK_DEADLOCK FALSE
